@@ -608,3 +608,7 @@ pub enum BlockIoOpcode {
     Otir,
     Otdr,
 }
+
+#[cfg(kani)]
+#[path = "/verif/hooks/z80/registers.rs"]
+mod verif_hooks;
